@@ -119,8 +119,8 @@ pub fn c01(ctx: &Ctx) -> (CheckMeta, Outcome) {
     }
     let out = run_all(tasks, threads());
     let meta = CheckMeta {
-        property: "C01",
-        level: "model_checking",
+        property: "C01".into(),
+        level: "model_checking".into(),
         rule: "explicit-state BFS over the real BufBitWriter (recording backend; state = Debug string (buffer, space_left) + model pending bits; rebuilt by replaying the shortest history) for E x W in {8,16,32,64,128}; alphabet write_bits(n 0..=64 x 4 value patterns x {clean, bit n set, all bits >= n set}), write_unary(0..=2W+1, 3W-1, 3W, 3W+1, 5W+3), flush; every transition: return value and words delivered during the step vs the bit-vector model; every node's history is replayed on vec/vecref/slice/adapter/rec backends with flush, flush;flush, into_inner, drop and the whole byte image compared (traces_validated_against_impl counts these replays)".into(),
         assumptions: vec!["reference model = canonical layout (harness/src/model.rs)".into(), "by parametricity in the WordWrite backend the writer's future depends on (buffer, space_left) only".into()],
     };
@@ -191,9 +191,79 @@ pub fn c12(ctx: &Ctx) -> (CheckMeta, Outcome) {
     let mut out = run_all(tasks, threads());
     out.merge(crate::props::readers::c12_read(ctx));
     let meta = CheckMeta {
-        property: "C12",
-        level: "model_checking",
+        property: "C12".into(),
+        level: "model_checking".into(),
         rule: "write side: BFS over the real BufBitWriter for E x W in {8..128}: level 0 reaches every buffer fill level (every starting bit offset), then std::io::Write::write of every slice length 0..=40 (two byte patterns) and 41,47,48,49,63,64,65,100, then further byte writes / boundary bit writes / flush; returned count must equal the slice length, delivered words and final images on all real backends must equal the model (byte = 8 stream bits in stream order); read side: BFS to the fixpoint of every reader kind over zero-extended/strict/Cursor backends with io::Read of every length 0..=40 at every reachable state".into(),
+        assumptions: vec!["reference model = canonical layout".into()],
+    };
+    (meta, out)
+}
+
+/// C08, destination view: the writer state space with copy-in operations in the alphabet.
+pub fn c08_dest(ctx: &Ctx) -> Outcome {
+    let mut tasks: Vec<Task> = vec![];
+    for e in End::BOTH {
+        for wbits in WBITS {
+            let seed = ctx.seed;
+            let thorough = ctx.thorough;
+            tasks.push(Box::new(move || {
+                let pats = value_patterns(seed);
+                let bnd = boundary_alphabet(wbits, seed, false);
+                let mut copies: Vec<WOp> = vec![];
+                for src in 0..SRC_KINDS.len() as u8 {
+                    let sw: usize = [8, 16, 32, 64, 64][src as usize];
+                    let ks: Vec<usize> = if thorough { (0..=2 * sw).collect() } else { vec![0, 1, sw - 1, sw, sw + 3] };
+                    for k in ks {
+                        for peek in [false, true] {
+                            let mut ns: Vec<usize> = vec![0, 1, 7, wbits - 1, wbits, wbits + 1, 63, 64, 65, 2 * wbits + 3, 130];
+                            if thorough {
+                                ns.extend([2, 8, 9, 31, 32, 33, 127, 128, 129, 3 * wbits + 1]);
+                            }
+                            ns.sort();
+                            ns.dedup();
+                            for n in ns {
+                                if k + n > 256 {
+                                    continue;
+                                }
+                                for from in [false, true] {
+                                    copies.push(WOp::CopyIn { src, k: k as u16, peek, n: n as u16, from });
+                                }
+                            }
+                        }
+                    }
+                }
+                // level 0: reach a spread of fill levels; level 1: every copy-in; level 2: continuation
+                let mut l0: Vec<WOp> = vec![];
+                let fills: Vec<usize> = if thorough { (0..wbits.min(65)).collect() } else { vec![0, 1, 7, wbits / 2, wbits - 2, wbits - 1] };
+                for n in fills {
+                    if n <= 64 {
+                        l0.push(WOp::WriteBits { v: pats[3] & mask(n as u8), n: n as u8 });
+                    }
+                }
+                if wbits > 64 {
+                    l0.push(WOp::Unary(wbits as u64 - 2)); // fill wbits-1
+                    l0.push(WOp::Unary(100));
+                }
+                let mut l2 = bnd.clone();
+                l2.extend(copies.iter().filter(|c| matches!(c, WOp::CopyIn { k: 1, peek: true, .. })).cloned());
+                let alphabets = vec![l0, copies, l2];
+                let run = WrRun { property: "C08", e, wbits, wrapper: "", depth: 3, alphabets: &alphabets, fixpoint: false, max_states: 4_000_000, real_backends: true, check_counter: false, leaf_combos: if thorough { 4 } else { 1 } };
+                explore(&run)
+            }));
+        }
+    }
+    run_all(tasks, threads())
+}
+
+pub fn c08(ctx: &Ctx) -> (CheckMeta, Outcome) {
+    let mut out = crate::props::readers::c08_source(ctx);
+    out.merge(c08_dest(ctx));
+    let variant = if cfg!(feature = "no_copy_impls") { "generic copy paths (no_copy_impls)" } else { "optimised copy paths" };
+    out.cov.notes.push(format!("this binary was built with the {}", variant));
+    let meta = CheckMeta {
+        property: "C08".into(),
+        level: "model_checking".into(),
+        rule: "the reader x writer product is cut along the copy step. Source view: BFS to the FIXPOINT of the real reader (Buf8..Buf64, unbuffered; zero-extended, strict, Cursor backends; Count wrapper) whose alphabet contains, besides boundary reads/peeks/skips, all table and table-free code reads and seeks, copy_to/copy_from of n bits (0..=W+2 (thorough 0..=3W+2), 2W-1..2W+1, 3W+2, 5W+7, 8W, 200) into a fresh writer of every word size 8..128 pre-filled with several bit counts; the destination's whole image (prefill ++ copied bits ++ sentinel) is compared with the model and the source continues as an ordinary BFS state, so EVERY continuation of EVERY post-copy state is explored. Destination view: BFS (depth 3) over the real writer: fill level, copy-in from a fresh source reader of every kind advanced by k bits and optionally peeked (more than one word buffered), continuation writes; delivered words and final images on real backends vs the model. Both views are run on the build with the optimised copy paths and on the build with --features no_copy_impls".into(),
         assumptions: vec!["reference model = canonical layout".into()],
     };
     (meta, out)
